@@ -230,6 +230,57 @@ def to_model(traces):
     return guard, progs, shared, reason
 
 
+def lock_ranks(traces):
+    """a ranking of the locks compatible with every nesting seen in the traces (lock h held while l is taken => h before l),
+    or None (and the offending cycle) when the nestings contradict each other"""
+    edges = {}
+    locks = set()
+    for tr in traces:
+        for e in tr:
+            if e[1] == 'acq':
+                locks.add(e[2])
+                for h in e[3]:
+                    locks.add(h)
+                    if h != e[2]:
+                        edges.setdefault(h, set()).add(e[2])
+    rank, state = {}, {}
+
+    def visit(l, path):
+        if state.get(l) == 1:
+            return path[path.index(l):] + [l]
+        if state.get(l) == 2:
+            return None
+        state[l] = 1
+        for m in sorted(edges.get(l, ())):
+            cyc = visit(m, path + [l])
+            if cyc:
+                return cyc
+        state[l] = 2
+        rank[l] = len(rank)
+        return None
+    for l in sorted(locks):
+        cyc = visit(l, [])
+        if cyc:
+            return None, cyc
+    n = len(rank)
+    return {l: n - r for l, r in rank.items()}, None       # reverse post-order: predecessors get smaller ranks
+
+
+def deadlock_schedules(traces, cyc):
+    """schedules in which each thread of a lock-order cycle first takes its outer lock and then asks for the inner one"""
+    n = [len(t) for t in traces]
+    stops = {}
+    for a, tr in enumerate(traces):
+        for i, e in enumerate(tr):
+            if e[1] == 'acq' and e[3] and e[2] in cyc and any(h in cyc for h in e[3]):
+                stops.setdefault(a, i)
+    ths = sorted(stops)
+    if len(ths) >= 2:
+        a, b = ths[0], ths[1]
+        yield [a] * stops[a] + [b] * stops[b] + [a] * (n[a] - stops[a]) + [b] * (n[b] - stops[b])
+        yield [b] * stops[b] + [a] * stops[a] + [b] * (n[b] - stops[b]) + [a] * (n[a] - stops[a])
+
+
 def candidate_schedules(traces, shared):
     """interleavings that put the whole of one thread's run between two consecutive accesses of the other to a shared object"""
     n = [len(t) for t in traces]
@@ -270,7 +321,7 @@ class C15(Check):
         'process (logging Lock/RLock, logging read/write/seek/tell of SubsectionIO, the crypto wrappers, the merger, the DPFS '
         'file and the base file); the theorem applies to the extracted traces, so data-dependent control flow that would take '
         'other locks on other inputs is not covered',
-        'deadlock freedom is not proved (no lock-order theorem); hangs of replayed schedules are reported',
+        'deadlock freedom: the no-deadlock theorem applies when the extracted lock nestings admit one ranking (computed by the harness, checked by the model on every program); a contradiction between nestings is replayed as a schedule on real threads and a hang is reported',
     ]
     assumptions = ['one thread per handle; a merged-split-file object shared directly between threads is excluded']
 
@@ -318,16 +369,22 @@ class C15(Check):
             serials.append(run_serial(kind, names, ops, order, pre))
         traces = record(kind, names, ops, pre)
         guard, progs, shared, reason = to_model(traces)
-        verdict = drv.ask(sexp(['sched-check', [[x, l] for x, l in sorted(guard.items())], progs]))
+        ranks, cycle = lock_ranks(traces)
+        verdict = drv.ask(sexp(['sched-check', [[x, l] for x, l in sorted(guard.items())], progs,
+                                [[l, r] for l, r in sorted((ranks or {}).items())]]))
+        if cycle and reason is None and verdict in ('ok',) or (cycle and verdict.startswith('unordered')):
+            reason = f'the lock nestings of the threads contradict each other: {cycle}'
         real = 'disciplined' if (verdict == 'ok' and reason is None) else 'undisciplined'
         model = 'disciplined'
         mon = []
         key = None
-        info = {'kind:' + kind: 1, 'verdict:' + real: 1, 'shared:%d' % len(shared): 1,
+        info = {'kind:' + kind: 1, 'verdict:' + real: 1, 'shared:%d' % len(shared): 1, 'locks-ranked:%d' % len(ranks or {}): 1,
+                'nested-acquisitions:%d' % sum(1 for tr in traces for e in tr if e[1] == 'acq' and e[3]): 1,
                 'lifecycle:' + ('/'.join(sorted({p[1] for p in pre if p})) if pre and any(pre) else 'none'): 1}
         if real != 'disciplined':
             tried = 0
-            for order in candidate_schedules(traces, shared):
+            import itertools as _it
+            for order in _it.chain(deadlock_schedules(traces, cycle) if cycle else (), candidate_schedules(traces, shared)):
                 tried += 1
                 if tried > 12:
                     break
